@@ -266,6 +266,15 @@ func TestWarmUpEnvelope(t *testing.T) {
 				if per[0] > coldBound && !(starveShape && exP9) {
 					t.Fatalf("after arbitrary demand and then an idle gap of %d s (period %d s) the first interval admitted %d > ceil(T/coldFactor)+1 = %d (the rule did not cool down)", idle, g.P, per[0], coldBound)
 				}
+				if !(starveShape && exP9) { // ... and sustained demand warms it up again, whatever happened before
+					again := demand(sec+idle+1, warm+4, sat)
+					c.Op("then saturating demand: admitted %v", again)
+					for s := warm * 1000 / ivMs; s < len(again); s++ {
+						if again[s] != floorT {
+							t.Fatalf("after arbitrary demand, an idle gap of %d s and then %d s of saturating demand (period %d s): interval %d admitted %d, full threshold is floor(%v) (admitted %v)", idle, warm, g.P, s, again[s], g.T, again)
+						}
+					}
+				}
 			}
 		}
 		c.ClassIf(starveShape, "T/coldFactor<=1")
